@@ -103,6 +103,9 @@ def strategy_(g):
                     j = rnd.choice(cands)
                     vi["p"] = dict(case["edges"][j]["off"])
                     vshare.append(["offset", i, j])
+    # information matrices in various memory layouts (Fortran order, strided view): values are what matters
+    for e in case["edges"]:
+        e["layout"] = g.choice(["C", "C", "F", "strided"])
     case["vshare"] = vshare
     case["share"] = share
     if g.choice([False, False, False, False, True]):
@@ -114,7 +117,7 @@ def strategy_(g):
     ops = []
     for _ in range(nops):
         op = g.choice(OPS)
-        ops.append({"op": op, "a": rnd.randrange(10**6), "b": rnd.randrange(10**6), "k": rnd.choice([1, 1, 2, 3]), "ff": rnd.random() < 0.5, "tol": rnd.choice([0.0, 1e-4]), "verbose": rnd.random() < 0.2})
+        ops.append({"op": op, "a": rnd.randrange(10**6), "b": rnd.randrange(10**6), "k": rnd.choice([1, 1, 2, 3]), "ff": rnd.random() < 0.5, "tol": rnd.choice([0.0, 1e-4]), "verbose": rnd.random() < 0.5})
     case["ops"] = ops
     return case
 
